@@ -1,5 +1,5 @@
-\* spec mutation (W_Avail = TRUE  W_Overhead = FALSE  W_Ports = TRUE  W_KeepTerm = TRUE  W_Override = TRUE  W_Refilter = TRUE): TLC must violate an invariant
+\* spec mutation (W_Avail = TRUE  W_Overhead = FALSE  W_Ports = TRUE  W_KeepTerm = TRUE  W_Override = TRUE  W_Refilter = TRUE  W_InitTaints = TRUE): TLC must violate an invariant
 CONSTANTS NPods = 2  PodArchs = {1,2}  Catalogs = {1}  PoolSets = {1}  Existings = {0,3}  Daemons = {1}
-CONSTANTS W_Avail = TRUE  W_Overhead = FALSE  W_Ports = TRUE  W_KeepTerm = TRUE  W_Override = TRUE  W_Refilter = TRUE
+CONSTANTS W_Avail = TRUE  W_Overhead = FALSE  W_Ports = TRUE  W_KeepTerm = TRUE  W_Override = TRUE  W_Refilter = TRUE  W_InitTaints = TRUE
 SPECIFICATION Spec
 INVARIANTS Inv_C01_NoOvercommit Inv_C01_EveryLaunchOptionHostsItsPods Inv_C01_RequiredTermNeverDropped
